@@ -152,3 +152,23 @@ Proof. intros H. rewrite g_win_table_eq. apply win_table_total. exact H. Qed.
 Lemma g_build_indexed_total ranges : wf_opt_ranges ranges ->
   g_build_indexed ranges = Ret (into_rangemap_safe Z.eqb (enumerate_from 0 ranges)).
 Proof. intros H. unfold g_build_indexed. apply g_build_traits_total. apply wf_enumerate. exact H. Qed.
+
+(* MinidumpModuleList::read: `u64::MAX - base` cannot trap, and a raw module is kept exactly when its memory_range()
+   exists, so the read-time filter removes only entries the builder would have skipped anyway *)
+Lemma g_module_read_drop_eq p b s : u64 b -> u64 s ->
+  g_module_read_drop p b s = Ret (negb (module_read_keep b s)) /\
+  (module_read_keep b s = true <-> exists r, mk_range b s = Some r).
+Proof.
+  intros [Hb1 Hb2] [Hs1 Hs2]. unfold g_module_read_drop, module_read_keep, chk_sub, chk, U64MAX. split.
+  - destruct (s =? 0) eqn:E0; [reflexivity|].
+    assert (H : (0 <=? 18446744073709551615 - b) && (18446744073709551615 - b <? 2 ^ 64) = true).
+    { apply andb_true_intro. unfold two64 in *. split; [apply Z.leb_le|apply Z.ltb_lt]; lia. }
+    rewrite H. cbn [obind orb]. rewrite negb_involutive. reflexivity.
+  - unfold mk_range, checked_add. destruct (s =? 0) eqn:E0; cbn [orb negb].
+    + split; [discriminate|]. intros [r Hr]. discriminate.
+    + unfold two64 in *. destruct (s >? 18446744073709551615 - b) eqn:E1; cbn [negb].
+      * apply Z.gtb_lt in E1. split; [discriminate|]. intros [r Hr].
+        destruct (b + s <? 2 ^ 64) eqn:E2; [apply Z.ltb_lt in E2; lia|discriminate].
+      * split; [|reflexivity]. intros _. rewrite Z.gtb_ltb in E1. apply Z.ltb_ge in E1.
+        destruct (b + s <? 2 ^ 64) eqn:E2; [eauto|]. apply Z.ltb_ge in E2. lia.
+Qed.
